@@ -1,5 +1,6 @@
 From Coq Require Import ZArith Floats Extraction ExtrOcamlBasic ExtrOcamlString ExtrOCamlFloats ExtrOCamlInt63.
-From CMI Require Import Cxx.C20_Defs.
+From CMI Require Import Cxx.C20_Defs Cxx.C20_SnapDefs.
 Extraction "c20_model.ml" parse_text parse print print_text print_used used_dict unlines getlines
   tokenize f_get_unit f_to_SI f_to_unit f_convert si_name si_names unit_table table_consistent f_unit_val
-  Z.of_nat Z.to_nat.
+  Z.of_nat Z.to_nat
+  wr_entries_flat rd_entries_flat lg_wr_entries_flat.
